@@ -14,7 +14,7 @@ import re
 from fractions import Fraction
 from typing import Dict, List, Optional, Tuple
 
-from ..cfg import (CFG, enum_paths, call_name, attr_chain, walk_no_nested, parents_map,
+from ..cfg import (cguards_of, ctext, branches, CFG, enum_paths, call_name, attr_chain, walk_no_nested, parents_map,
                    guards_of, const_int, names_loaded)
 from ..core import AnalysisError, Ctx, Func, norm
 from ..poly import Poly, poly_of
@@ -359,7 +359,7 @@ def r13_1(ctx: Ctx):
     for st in walk_no_nested(w.node):
         if isinstance(st, ast.Assign) and isinstance(st.targets[0], ast.Name) and isinstance(st.value, ast.Constant) \
                 and isinstance(st.value.value, bool):
-            g_ = [(norm(t), pol) for t, pol in guards_of(st, pmw)]
+            g_ = cguards_of(st, pmw)
             flag_defs.setdefault(st.targets[0].id, []).append((st.value.value, g_))
     inp_w = [p_ for p_ in w.params if p_ not in ("cls", "self")][0]
     for s_, guards in extra:
@@ -367,7 +367,8 @@ def r13_1(ctx: Ctx):
         okg = len(guards) == 1 and len(flag) == 1 and flag[0] in flag_defs
         if okg:
             # the flag is True exactly for records of 10 fields (7 + 3 velocities) and False for 7
-            want = {True: [("len(%s) == 10" % inp_w, True)], False: [("len(%s) == 10" % inp_w, False), ("len(%s) == 7" % inp_w, True)]}
+            c10_, c7_ = ctext("len(%s) == 10" % inp_w)[0], ctext("len(%s) == 7" % inp_w)[0]
+            want = {True: [(c10_, True)], False: [(c10_, False), (c7_, True)]}
             for val, g_ in flag_defs[flag[0]]:
                 if sorted(g_) != sorted(want[val]):
                     okg = False
@@ -437,9 +438,10 @@ def r13_1(ctx: Ctx):
             for t_, pol_ in g_:
                 if isinstance(t_, ast.Compare) and isinstance(t_.left, ast.Name):
                     ndv = t_.left.id
-            seen_vals[s_.value.value] = sorted((norm(t_), pol_) for t_, pol_ in g_)
-    vel_ok = ndv is not None and seen_vals.get(False) == [("%s == 3" % ndv, True)] and \
-        seen_vals.get(True) == sorted([("%s == 3" % ndv, False), ("%s == 6" % ndv, True)])
+            seen_vals[s_.value.value] = cguards_of(s_, pmd)
+    c3_, c6_ = ctext("%s == 3" % (ndv or "n"))[0], ctext("%s == 6" % (ndv or "n"))[0]
+    vel_ok = ndv is not None and seen_vals.get(False) == [(c3_, True)] and \
+        seen_vals.get(True) == sorted([(c3_, False), (c6_, True)])
     ctx.ob("R13.1", d, "velocities flag from the number of decimal points: %s" % seen_vals, vel_ok,
            "three decimal points after the header mean positions only, six mean positions and velocities, anything else is refused",
            node=d.node)
@@ -876,6 +878,10 @@ def r13_4(ctx: Ctx, rule: str = "R13.4"):
         t = n_.test
         shown = norm(t)
         inner = None
+        tpol = True
+        while isinstance(t, ast.UnaryOp) and isinstance(t.op, ast.Not):
+            t, tpol = t.operand, not tpol
+        when_any, when_none = (n_.body, n_.orelse) if tpol else (n_.orelse, n_.body)
         if isinstance(t, ast.Call) and call_name(t) in ("any", "count_nonzero") and (t.args or isinstance(t.func, ast.Attribute)):
             inner = t.args[0] if t.args else t.func.value
         if inner is not None:
@@ -883,8 +889,8 @@ def r13_4(ctx: Ctx, rule: str = "R13.4"):
                 inner = inner.left
             whole = isinstance(inner, ast.Subscript) and isinstance(inner.slice, ast.Slice) and const_int(inner.slice.lower) == 3 \
                 and inner.slice.upper is None and inner.slice.step is None
-            body9 = any(isinstance(x, ast.Assign) and const_int(x.value) == 9 for x in n_.body)
-            else3 = any(isinstance(x, ast.Assign) and const_int(x.value) == 3 for x in n_.orelse)
+            body9 = any(isinstance(x, ast.Assign) and const_int(x.value) == 9 for x in when_any)
+            else3 = any(isinstance(x, ast.Assign) and const_int(x.value) == 3 for x in when_none)
             okt = whole and body9 and else3
     ctx.ob(rule, du, "triclinic test `%s`" % shown, okt,
            "all nine components are written as soon as any of the six off-diagonal ones is non-zero (of either sign), "
